@@ -7,6 +7,53 @@ import world_common as wc
 MON = ["journal", "fault_reported", "no_error"]
 
 
+def empty_stamp_phase(rep, exe_impl, exe_model):
+    """implementation only: a timestamp pattern that is not empty but EXPANDS to nothing (%Z in a time zone whose
+    abbreviation is the empty string): 'an empty timestamp ... being omitted' is about the expansion"""
+    import os
+    import vlib
+    zone = os.path.join(vlib.BUILD, "emptyzone")
+    with open(zone, "wb") as f:
+        # TZif version 1, one local time type: offset 0, not DST, abbreviation "" (index 0 of a 1-byte string table)
+        f.write(b"TZif" + b"\0" * 16 + b"\0\0\0\0" * 4 + b"\0\0\0\1" + b"\0\0\0\1" + b"\0\0\0\0" + b"\0" + b"\0" + b"\0")
+    rng = random.Random(rep.seed + 19)
+    cases = []
+    for i in range(12 if rep.tier == "quick" else 100):
+        s = wc.Script()
+        wc.setup_world(s, wc.base_cfg(deb=0, jpat="%Z"))
+        s.start()
+        files = [wc.WATCH + "/inc/a.txt", wc.WATCH + "/n"]
+        for _ in range(rng.randint(3, 10)):
+            r = rng.random()
+            if r < 0.3:
+                s.exec(rng.choice([3, 4]), rng.choice([wc.X + "/vim", wc.X + "/cat"]))
+            elif r < 0.7:
+                f = rng.choice(files)
+                s.put(f, "data%d" % rng.randint(0, 99))
+                s.write(rng.choice([3, 4]), f)
+            else:
+                s.timeout()
+            s.dump()
+        cases.append(("z%d" % i, s.text(), {"stamps": True}))
+    impl, _, problems = vlib.correspond(exe_impl, None, "world", [(c, t) for c, t, _ in cases], sandbox=True, env={"KDRV_TZ": ":" + zone})
+    found = False
+    validated = 0
+    for cid, script, meta in cases:
+        il = impl.get(cid)
+        if il is None:
+            continue
+        steps = wk.align(script.split("\n"), il)
+        wk.tag_env(steps)
+        for mname in ("journal", "fault_reported"):
+            r = wk.MONITORS[mname](steps, meta)
+            if r:
+                rep.violation("world", {"case": cid, "script": script.split("\n"), "env": {"KDRV_TZ": ":" + zone + " (a TZif file whose only abbreviation is empty)"},
+                                        "implementation": wc.comparable(il), "what": "%s: %s" % (mname, r)})
+                return True, validated, len(cases)
+        validated += 1
+    return found, validated, len(cases)
+
+
 def main(rep):
     rng = random.Random(rep.seed)
     n = 250 if rep.tier == "quick" else 5000
@@ -16,8 +63,8 @@ def main(rep):
         cases.append(("j%d" % i, t, m))
     for i in range(n // 3):
         cases.append(("w%d" % i, wc.gen_world_case(rng, dump_around=True), {}))
-    wk.standard_main(rep, cases=cases, monitors=MON,
-                     rule=("every label independently absent / empty / text, timestamp patterns {'' (expands to nothing), %s, x, t%s-}, exec / write / pass events, "
+    wk.standard_main(rep, cases=cases, monitors=MON, extra=empty_stamp_phase,
+                     rule=("every label independently absent / empty / text, timestamp patterns {'' (expands to nothing), %s, x, t%s-, with slashes; and, implementation only, %Z in a time zone whose abbreviation is empty: a non-empty pattern that expands to nothing}, exec / write / pass events, "
                            "a short-write oracle (1-9 bytes) at a random call of ~30% of the operations, dump after every operation; monitors: each journal only grows, "
                            "by whole well-formed lines; with the default labels also line counts per event and stored/deleted labels against the store"))
 
